@@ -46,12 +46,15 @@ THEOREMS = [
     "C05_int_value",
     "C05_int_branch",
     "C05_trunc_ofInt",
+    "parse_int_layout",
+    "C05_int",
     "C05_unchanged",
     "C05_format_changed",
     "C05_separated",
 ]
 
 WORKERS = 8
+MAX_CONFIRM = 12  # disagreements re-run singly in the parent process and minimised; further ones are counted only
 RENDER_OK = "render/parse inverse (Dec.value = Spec.parseChars = fortranFloat of the laid-out text; validated, not proved)"
 FLOAT_BRANCH = {"e": "sci", "f": "fixed", "g": "general"}
 
@@ -767,7 +770,9 @@ def run(chk):
     for case, ti, rm in zip(pf, pf_impl, pf_model or []):
         chk.count("pyformat:" + case["style"])
         if rm.get("text") != ti:
-            if run_impl_pyformat(case) == ti and drv.batch([case])[0].get("text") != ti:
+            if chk.disagreements_checked >= MAX_CONFIRM:
+                chk.count("disagreement-not-rechecked:pyformat")
+            elif run_impl_pyformat(case) == ti and drv.batch([case])[0].get("text") != ti:
                 bad += 1
                 chk.disagreements_checked += 1
                 chk.broken_obligation("correspondence", "U-pyformat (Model pyFormat vs CPython format)", {"impl": ti, "model": rm}, case)
@@ -898,6 +903,10 @@ def run(chk):
             chk.traces_validated += 1
             a, b = node_texts(ri), node_texts(rm)
             if a != b:
+                if chk.disagreements_checked >= MAX_CONFIRM:
+                    # enough confirmed and minimised evidence for the report: the rest is only counted
+                    chk.count("disagreement-not-rechecked:valueformat")
+                    continue
                 if node_band(case, ri, rm):
                     chk.count("band:valueformat")
                     continue
@@ -937,11 +946,24 @@ def run(chk):
                 chk.count("flaky:judge-api")
             else:
                 best = case
-                for gap in (" ",):
-                    c2 = dict(case, gap=gap)
+
+                def api_fails(c2, sig=v[0]):
                     vv = judge_api(c2, run_impl_api(c2))
-                    if vv is not None and vv[0] == v[0]:
-                        best = c2
+                    return vv is not None and vv[0] == sig
+
+                if case["gap"] != " " and api_fails(dict(best, gap=" ")):
+                    best = dict(best, gap=" ")
+                x0 = nf.unnum(best["x"])
+                if math.isfinite(x0) and x0 != 0:
+                    for nd in range(1, 17):  # fewest significant digits that still fail
+                        c2 = dict(best, x=nf.num(float(f"{x0:.{nd - 1}e}")))
+                        if api_fails(c2):
+                            best = c2
+                            break
+                for t2 in ("1", "1.5", "1.0", "1e3", "1.5e3", "-1.5e3", "1.5-3"):
+                    if api_fails(dict(best, token=t2)):
+                        best = dict(best, token=t2)
+                        break
                 rr = run_impl_api(best)
                 chk.violation(v[0], judge_api(best, rr)[1], {"case": best, "impl": rr})
                 continue
@@ -949,6 +971,9 @@ def run(chk):
             chk.traces_validated += 1
             m = st_by_i[i]
             if m.get("text") != res["node_text"]:
+                if chk.disagreements_checked >= MAX_CONFIRM:
+                    chk.count("disagreement-not-rechecked:api")
+                    continue
                 fake = {"token": case["token"], "ty": "float", "pad": None, "never_pad": False, "negatable": "no", "ops": [["value", case["x"]], ["format"]]}
                 if node_band(fake, {"init": "ok", "outs": [{"text": res["node_text"]}]}, {"init": "ok", "outs": [{"text": m.get("text", "")}]}):
                     chk.count("band:api")
